@@ -22,9 +22,9 @@ type rl struct {
 	declared int // >0: the header declares this payload length (lying header)
 }
 
-func rlStr(b []byte) *rl { return &rl{b: append([]byte{}, b...)} }
+func rlStr(b []byte) *rl   { return &rl{b: append([]byte{}, b...)} }
 func rlInt(x *big.Int) *rl { return &rl{b: x.Bytes()} }
-func rlList(k ...*rl) *rl { return &rl{list: true, kids: k} }
+func rlList(k ...*rl) *rl  { return &rl{list: true, kids: k} }
 
 func (x *rl) clone() *rl {
 	if x == nil {
